@@ -14,6 +14,9 @@ FIRST = {
     "C11": "missed", "C12": "caught (replay)", "C13": "caught (replay)", "C14": "caught (replay)", "C15": "caught (replay)",
     "C16": "missed", "C17": "caught (replay)", "C18": "caught (replay)", "C19": "caught (replay; 11 theorems about the regenerated rotation_matrix stop checking)",
     "C20": "caught (replay)",
+    # round 2 (seeds told what round 1 had already taken)
+    "C01-2": "caught (replay)", "C02-2": "caught (replay)", "C03-2": "missed", "C04-2": "caught (replay)", "C05-2": "caught (replay)",
+    "C06-2": "caught (replay)", "C07-2": "missed", "C08": "caught (replay)",
 }
 
 
